@@ -380,3 +380,110 @@ Proof.
   split; [|apply FunCacheValues.canon_eq];
     (cbn [FunCacheValues.same_arg]; repeat constructor; reflexivity).
 Qed.
+
+(* ================================================================== phase 3 *)
+(* ------------------------------------------------------------------ executable symbolic models of the exp / power classes *)
+(* Model/FunGenzSym.v follows eval and getAnalyticSolutionIntegral of GenzDiscontinious, GenzC0 and FunctionExpVar over Qc up to the
+   transcendental atoms exp(t), x ** (1+y): every comparison with border / midpoint, the clipping min(end, border), the early
+   `return 0.0` and the branch choice are decided on exact rationals; the result is a product of rational linear combinations of
+   atoms. These models are extracted and compared with Function.py on every run (entry subs 5-7). Read with the real exp / Rpower
+   (atomR, linR, symR) they ARE the real-number transcriptions of Proofs/FunGenzSep.v - which ties the transcription theorems to
+   the code - and hence the iterated Riemann integrals of the functions computed by eval. (Real-number axioms of the standard
+   library, as before.) *)
+From SG Require Import Model.FunGenzSym.
+From SG Require Proofs.FunGenzSymProofs Proofs.FunPiecewise.
+
+Theorem C12_discontinious_symbolic_is_transcription : forall cs bs a b,
+  length bs = length cs -> length a = length cs -> length b = length cs -> Forall (fun c => c <> 0%Qc) cs ->
+  FunGenzSymProofs.opt_symR (gd_int_sym cs bs a b) =
+  FunGenzSep.gd_int (map FunPolyReal.QcR cs) (map FunPolyReal.QcR bs) (map FunPolyReal.QcR a) (map FunPolyReal.QcR b) (Rdefinitions.IZR 1).
+Proof. exact FunGenzSymProofs.gd_int_sym_correct. Qed.
+Theorem C12_discontinious_symbolic_eval_is_transcription : forall cs bs xs acc,
+  FunGenzSymProofs.opt_expR (gd_eval_sym cs bs xs acc) =
+  FunGenzSep.gd_eval (map FunPolyReal.QcR cs) (map FunPolyReal.QcR bs) (map FunPolyReal.QcR xs) (FunPolyReal.QcR acc).
+Proof. exact FunGenzSymProofs.gd_eval_sym_correct. Qed.
+Theorem C12_discontinious_symbolic_integral_is_iterated_riemann : forall cs bs a b,
+  length bs = length cs -> length a = length cs -> length b = length cs -> Forall (fun c => c <> 0%Qc) cs ->
+  Forall2 (fun x y => (x <= y)%Qc) a b ->
+  FunPolyIter.is_iterated_riemann_integral
+    (fun xs => FunGenzSep.gd_eval (map FunPolyReal.QcR cs) (map FunPolyReal.QcR bs) xs (Rdefinitions.IZR 0))
+    (map FunPolyReal.QcR a) (map FunPolyReal.QcR b) (FunGenzSymProofs.opt_symR (gd_int_sym cs bs a b)).
+Proof. exact FunGenzSymProofs.gd_sym_integral_is_iterated_riemann. Qed.
+
+Theorem C12_c0_symbolic_is_transcription : forall cs ms a b, Forall (fun c => c <> 0%Qc) cs ->
+  FunGenzSymProofs.symR (Rdefinitions.IZR 1) (c0_int_sym cs ms a b) =
+  FunGenzSep.c0_int (map FunPolyReal.QcR cs) (map FunPolyReal.QcR ms) (map FunPolyReal.QcR a) (map FunPolyReal.QcR b) (Rdefinitions.IZR 1).
+Proof. exact FunGenzSymProofs.c0_int_sym_correct. Qed.
+Theorem C12_c0_symbolic_eval_is_transcription : forall cs ms xs acc,
+  Rtrigo_def.exp (FunPolyReal.QcR (c0_eval_sym cs ms xs acc)) =
+  FunGenzSep.c0_eval (map FunPolyReal.QcR cs) (map FunPolyReal.QcR ms) (map FunPolyReal.QcR xs) (FunPolyReal.QcR acc).
+Proof. exact FunGenzSymProofs.c0_eval_sym_correct. Qed.
+Theorem C12_c0_symbolic_integral_is_iterated_riemann : forall cs ms a b,
+  length ms = length cs -> length a = length cs -> length b = length cs -> Forall (fun c => c <> 0%Qc) cs ->
+  Forall2 (fun x y => (x <= y)%Qc) a b ->
+  FunPolyIter.is_iterated_riemann_integral
+    (fun xs => FunGenzSep.c0_eval (map FunPolyReal.QcR cs) (map FunPolyReal.QcR ms) xs (Rdefinitions.IZR 0))
+    (map FunPolyReal.QcR a) (map FunPolyReal.QcR b) (FunGenzSymProofs.symR (Rdefinitions.IZR 1) (c0_int_sym cs ms a b)).
+Proof. exact FunGenzSymProofs.c0_sym_integral_is_iterated_riemann. Qed.
+
+Theorem C12_expvar_symbolic_is_transcription : forall a b y k s, ev_int_sym a b = Some (y, k, s) ->
+  Rdefinitions.Rmult (FunPolyReal.QcR k) (FunGenzSymProofs.symR (Rdefinitions.Rplus (Rdefinitions.IZR 1) (FunPolyReal.QcR y)) s) =
+  FunGenzSep.ev_int (map FunPolyReal.QcR a) (map FunPolyReal.QcR b).
+Proof. exact FunGenzSymProofs.ev_int_sym_correct. Qed.
+Theorem C12_expvar_symbolic_integral_is_iterated_riemann : forall a b y k s, ev_int_sym a b = Some (y, k, s) ->
+  Forall2 (fun x y => (0 < x)%Qc /\ (0 < y)%Qc) a b ->
+  FunPolyIter.is_iterated_riemann_integral
+    (fun xs => Rdefinitions.Rmult (Rpow_def.pow (Rdefinitions.Rplus (Rdefinitions.IZR 1) (Rdefinitions.Rdiv (Rdefinitions.IZR 1) (Raxioms.INR (length a)))) (length a))
+                                  (FunGenzSep.ev_prod (Rdefinitions.Rdiv (Rdefinitions.IZR 1) (Raxioms.INR (length a))) xs (Rdefinitions.IZR 1)))
+    (map FunPolyReal.QcR a) (map FunPolyReal.QcR b)
+    (Rdefinitions.Rmult (FunPolyReal.QcR k) (FunGenzSymProofs.symR (Rdefinitions.Rplus (Rdefinitions.IZR 1) (FunPolyReal.QcR y)) s)).
+Proof. exact FunGenzSymProofs.ev_sym_integral_is_iterated_riemann. Qed.
+Print Assumptions C12_c0_symbolic_integral_is_iterated_riemann.
+
+(* the clipping logic at work: GenzDiscontinious([1, 2], border [1/2, 3]) over [0,1]x[0,2]: end clipped to 1/2 in the first
+   direction only; over [1/2,1]x[0,2]: early return *)
+Example C12_nonvacuous_discontinious_symbolic :
+  gd_int_sym [1; Qc2] [Qchalf; Q2Qc (3#1)] [0; 0] [1; Qc2] =
+    Some [[(1 / 1, AExp (- (1) * 0)); (- (1 / 1), AExp (- (1) * Qchalf))]; [(1 / Qc2, AExp (- Qc2 * 0)); (- (1 / Qc2), AExp (- Qc2 * Qc2))]] /\
+  gd_int_sym [1; Qc2] [Qchalf; Q2Qc (3#1)] [Qchalf; 0] [1; Qc2] = None /\
+  gd_eval_sym [1; Qc2] [Qchalf; Q2Qc (3#1)] [Q2Qc (1#4); 1] 0 = Some (Q2Qc (-9#4)).
+Proof. repeat split; vm_compute; reflexivity. Qed.
+
+(* ------------------------------------------------------------------ FunctionDiagonalDiscont, FunctionG: exact models, integral theorems *)
+(* FunctionDiagonalDiscont: eval = indicator of sum x < 1 (exact over Qc); getAnalyticSolutionIntegral = 1/dim! over the unit cube.
+   The value is the iterated Riemann integral of the indicator, in EVERY dimension (the general statement dd_iter: the iterated
+   integral over [0,1]^n of [s + sum x < 1] is (1-s)^n/n! for 0 <= s < 1, 0 for s >= 1). *)
+Theorem C12_diagonaldiscont_integral_is_iterated_riemann : forall a b v, dd_int a b = IVal v ->
+  FunPolyIter.is_iterated_riemann_integral (FunPiecewise.dd_real (Rdefinitions.IZR 0)) (map FunPolyReal.QcR a) (map FunPolyReal.QcR b) (FunPolyReal.QcR v).
+Proof. exact FunPiecewise.dd_integral_is_iterated_riemann. Qed.
+Theorem C12_diagonaldiscont_eval_is_real_function : forall xs,
+  FunPolyReal.QcR (dd_eval xs) = FunPiecewise.dd_real (Rdefinitions.IZR 0) (map FunPolyReal.QcR xs).
+Proof. exact FunPiecewise.dd_eval_real. Qed.
+Theorem C12_simplex_slice_integral : forall n s, Rdefinitions.Rle (Rdefinitions.IZR 0) s ->
+  FunPolyIter.is_iterated_riemann_integral (FunPiecewise.dd_real s) (repeat (Rdefinitions.IZR 0) n) (repeat (Rdefinitions.IZR 1) n) (FunPiecewise.dd_value n s).
+Proof. exact FunPiecewise.dd_iter. Qed.
+(* FunctionG (Sobol g-function, a_d = d/2): eval exact over Qc; the integral over the unit cube is 1 in every dimension *)
+Theorem C12_g_integral_is_iterated_riemann : forall a b v, g_int a b = IVal v ->
+  FunPolyIter.is_iterated_riemann_integral (FunPiecewise.g_real (length a)) (map FunPolyReal.QcR a) (map FunPolyReal.QcR b) (FunPolyReal.QcR v).
+Proof. exact FunPiecewise.g_integral_is_iterated_riemann. Qed.
+Theorem C12_g_eval_is_real_function : forall xs,
+  FunPolyReal.QcR (g_eval xs) = FunPiecewise.g_real (length xs) (map FunPolyReal.QcR xs).
+Proof. exact FunPiecewise.g_eval_real. Qed.
+Print Assumptions C12_diagonaldiscont_integral_is_iterated_riemann.
+Example C12_nonvacuous_piecewise :
+  dd_int [0; 0; 0] [1; 1; 1] = IVal (Q2Qc (1#6)) /\ dd_eval [Q2Qc (1#4); Qchalf] = 1 /\ dd_eval [Qchalf; Qchalf] = 0 /\
+  g_int [0; 0] [1; 1] = IVal 1 /\ g_eval [Q2Qc (1#4); 1] = Q2Qc (5#3).
+Proof. repeat split; vm_compute; reflexivity. Qed.
+
+(* ------------------------------------------------------------------ order of integration (a Fubini consequence, polynomials) *)
+(* Coquelicot has no Riemann integral over a box in R^n and no Fubini theorem (is_RInt is one-dimensional; RInt.v, RInt_analysis.v,
+   KHInt.v contain only parametric integrals), so `iterated integral = integral over the box` cannot be stated against a library
+   notion. What can be proved without it: for every formal polynomial the iterated integral does not depend on the order of the
+   first two variables (x1 outermost then x2, or x2 outermost then x1). *)
+Theorem C12_polynomial_integration_order_irrelevant : forall p a b, length a = length b -> (2 <= length a)%nat ->
+  Forall (fun m => length (snd m) = length a) p ->
+  FunPolyIter.is_iterated_riemann_integral (FunPolyIter.mp_evalR p) (map FunPolyReal.QcR a) (map FunPolyReal.QcR b) (FunPolyReal.QcR (mp_int p a b)) /\
+  FunPolyIter.is_iterated_riemann_integral (fun xs => FunPolyIter.mp_evalR p (FunPolyIter.swap2 xs))
+    (FunPolyIter.swap2 (map FunPolyReal.QcR a)) (FunPolyIter.swap2 (map FunPolyReal.QcR b)) (FunPolyReal.QcR (mp_int p a b)).
+Proof. exact FunPolyIter.polynomial_integration_order_irrelevant. Qed.
+Print Assumptions C12_polynomial_integration_order_irrelevant.
